@@ -85,6 +85,10 @@ def case_features(case, feats: Set[str]) -> List[str]:
         out.add("config.custom_ops")
     if cfg.get("files_to_include"):
         out.add("config.files_to_include")
+    if cfg.get("client_name"):
+        out.add("config.custom_names")
+    if cfg.get("include_all_inputs") is False:
+        out.add("config.prune")
     return sorted(out)
 
 
@@ -491,6 +495,16 @@ def with_custom_operations(case: Dict[str, Any], i: int) -> None:
         case["cfg"] = dict(case["cfg"])
         case["cfg"]["enable_custom_operations"] = True
         case["dirty"] = sorted(set(case.get("dirty", [])))
+    if i % 7 == 3:
+        case["cfg"] = dict(case["cfg"])
+        case["cfg"].update({"target_package_name": "my_pkg", "client_name": "MyClient", "client_file_name": "my_client", "enums_module_name": "my_enums",
+                            "input_types_module_name": "my_inputs", "fragments_module_name": "my_frags"})
+    if i % 7 == 5:
+        case["cfg"] = dict(case["cfg"])
+        case["cfg"].update({"include_all_inputs": False, "include_all_enums": False})
+    if i % 9 == 4:
+        case["cfg"] = dict(case["cfg"])
+        case["cfg"]["include_comments"] = "stable"
 
 
 def with_mixins(case: Dict[str, Any], i: int) -> None:
